@@ -168,14 +168,32 @@ pub struct Hist {
     pub trees: Vec<String>,
 }
 
+/// observations of `history` made by a fresh process (the true empty history:
+/// no thread-local or global state left behind by anything)
+fn fresh_process(history: &[usize]) -> Vec<String> {
+    let exe = std::env::current_exe().unwrap();
+    let arg = history.iter().map(|i| i.to_string()).collect::<Vec<_>>().join(",");
+    let o = std::process::Command::new(&exe).arg("C13-first").arg(arg).output().expect("spawn");
+    let txt = String::from_utf8_lossy(&o.stdout).to_string();
+    let mut v: Vec<String> = txt.lines().filter(|l| l.starts_with("OBS ")).map(|l| l[4..].replace("\\n", "\n")).collect();
+    if v.len() != history.len() || txt.contains("MUTATED") {
+        v = vec![format!("fresh process failed: status {:?} {}", o.status.code(), txt.lines().last().unwrap_or(""))];
+    }
+    v
+}
+
 impl Hist {
+    /// baselines are taken from fresh processes, one per operation
     pub fn new(depth: usize) -> Hist {
+        use rayon::prelude::*;
         let ops = all_ops();
-        let baseline = ops.iter().map(|op| normalise(op, &replay_history(&[*op]).0[0])).collect();
-        let trees = (0..N_E)
-            .map(|i| match replay_history(&[Op::Compile(i as u8), Op::CloneE(i as u8)]).0.pop() {
-                Some(s) => s,
-                None => String::new(),
+        let baseline: Vec<String> = (0..ops.len()).into_par_iter().map(|i| fresh_process(&[i]).pop().unwrap_or_default()).collect();
+        let trees: Vec<String> = (0..N_E)
+            .into_par_iter()
+            .map(|i| {
+                let c = ops.iter().position(|o| *o == Op::Compile(i as u8)).unwrap();
+                let k = ops.iter().position(|o| *o == Op::CloneE(i as u8)).unwrap();
+                fresh_process(&[c, k]).pop().unwrap_or_default()
             })
             .collect();
         Hist { depth, ops, baseline, trees }
@@ -229,10 +247,13 @@ impl Model for Hist {
 }
 
 /// first use of the default runtime: each operation as the first of a fresh process
-pub fn first_child(opi: usize) -> i32 {
+pub fn first_child(history: &[usize]) -> i32 {
     let ops = all_ops();
-    let (obs, mutated) = replay_history(&[ops[opi]]);
-    println!("OBS {}", normalise(&ops[opi], &obs[0]).replace('\n', "\\n"));
+    let h: Vec<Op> = history.iter().map(|&i| ops[i]).collect();
+    let (obs, mutated) = replay_history(&h);
+    for (op, o) in h.iter().zip(obs.iter()) {
+        println!("OBS {}", normalise(op, o).replace('\n', "\\n"));
+    }
     if let Some(m) = mutated {
         println!("MUTATED {}", m);
     }
@@ -245,7 +266,7 @@ pub fn run(tier: Tier) -> i32 {
     let model = Hist::new(depth);
     let nops = model.ops.len();
     let mut st = Stats::default();
-    // determinism of the machinery itself: the baseline computed twice
+    // determinism of the machinery itself: the fresh-process baseline computed twice
     let again = Hist::new(depth);
     rep.guard("baseline observations are reproducible", again.baseline == model.baseline);
     let distinct: std::collections::BTreeSet<&String> = model.baseline.iter().collect();
@@ -278,11 +299,37 @@ pub fn run(tier: Tier) -> i32 {
     }
     if let Some(path) = checker.discovery("last operation answers as on a fresh history; inputs unchanged") {
         let acts: Vec<u8> = path.into_actions();
-        let (key, want, got) = model.judge(&acts).unwrap_or(("C13/unreproducible".into(), String::new(), String::new()));
+        let mut alone = model.judge(&acts);
+        let mut acts = acts;
+        if alone.is_none() {
+            // diagnosis: look for a shortest self-contained history, each candidate in its own fresh process
+            use rayon::prelude::*;
+            let n = model.ops.len();
+            let pairs: Vec<(usize, usize)> = (0..n).flat_map(|a| (0..n).map(move |b| (a, b))).collect();
+            let hit = pairs.par_iter().find_first(|(a, b)| {
+                let obs = fresh_process(&[*a, *b]);
+                let want = match model.ops[*b] {
+                    Op::CloneE(i) if obs.last().map_or(false, |o| o.starts_with("cloned")) => model.trees[i as usize].clone(),
+                    _ => model.baseline[*b].clone(),
+                };
+                obs.last() != Some(&want)
+            });
+            if let Some((a, b)) = hit {
+                let obs = fresh_process(&[*a, *b]);
+                acts = vec![*a as u8, *b as u8];
+                alone = Some(("C13/history-dependent".into(), model.baseline[*b].clone(), obs.last().cloned().unwrap_or_default()));
+            }
+        }
+        let kind = if alone.is_some() { "history-fresh-process" } else { "bfs-single-worker" };
+        let (key, want, got) = alone.unwrap_or((
+            "C13/state-survives-between-histories".into(),
+            "every history replayed on fresh objects answers as on an empty history".into(),
+            "with a single worker the search still finds a failing history, but that history passes when replayed alone on a fresh thread: the failure needs state (thread-local / global) left behind by the histories replayed before it".into(),
+        ));
         st.violate(Violation {
             key,
             check: "histories".into(),
-            case: json!({"kind": "history", "history": acts.iter().map(|&a| format!("{:?}", model.ops[a as usize])).collect::<Vec<_>>(), "indices": acts}),
+            case: json!({"kind": kind, "depth": depth, "history": acts.iter().map(|&a| format!("{:?}", model.ops[a as usize])).collect::<Vec<_>>(), "indices": acts}),
             expected: want,
             actual: got,
         });
@@ -290,26 +337,11 @@ pub fn run(tier: Tier) -> i32 {
         let full: u64 = (0..=depth).map(|d| (nops as u64).pow(d as u32)).sum();
         rep.guard("the whole history tree was visited", st.states == full);
     }
-    // every operation as the first of a fresh process
-    let exe = std::env::current_exe().unwrap();
-    for i in 0..nops {
-        st.evaluations += 1;
-        st.validated += 1;
-        st.transitions += 1;
-        let o = std::process::Command::new(&exe).arg("C13-first").arg(i.to_string()).output().expect("spawn");
-        let txt = String::from_utf8_lossy(&o.stdout).to_string();
-        let got = txt.lines().find(|l| l.starts_with("OBS ")).map(|l| l[4..].to_string()).unwrap_or_else(|| format!("no observation (status {:?})", o.status.code()));
-        let want = model.baseline[i].replace('\n', "\\n");
-        if got != want || txt.contains("MUTATED") {
-            st.violate(Violation {
-                key: "C13/first-use-differs".into(),
-                check: "fresh-process".into(),
-                case: json!({"kind": "first", "op": i, "operation": format!("{:?}", model.ops[i])}),
-                expected: want,
-                actual: got,
-            });
-        }
-    }
+    // baselines came from fresh processes (one per operation): count them
+    st.evaluations += nops as u64 + N_E as u64;
+    st.validated += nops as u64 + N_E as u64;
+    st.count("fresh_process_baselines", nops as u64 + N_E as u64);
+    rep.guard("fresh-process baselines are well-formed", model.baseline.iter().all(|b| !b.starts_with("fresh process failed")));
     rep.rule = "explicit-state BFS over all operation histories up to the depth bound (operations: compile / clone / search on 4 shared documents / drop, over 7 expressions incl. a failing call, by-functions with nested calls, a shared literal, a failing compile, a custom runtime); the state is the history, the invariant replays it on fresh real objects and compares the last operation's full observation (tree with offsets, value, or complete error struct) with the same operation on an empty history, and every shared document with its original JSON. Plus each operation as the first operation of a fresh process. non-trivial = non-empty history".into();
     rep.bounds = json!({"depth": depth, "operations": nops, "expressions": EXPRS, "documents": docs()});
     rep.stats = st;
@@ -326,15 +358,20 @@ pub fn replay(case: &Value) -> Option<(String, bool)> {
                 None => ("history independent".into(), false),
             })
         }
-        "first" => {
-            let i = case["op"].as_u64()? as usize;
-            let m = Hist::new(1);
-            let exe = std::env::current_exe().ok()?;
-            let o = std::process::Command::new(&exe).arg("C13-first").arg(i.to_string()).output().ok()?;
-            let txt = String::from_utf8_lossy(&o.stdout).to_string();
-            let got = txt.lines().find(|l| l.starts_with("OBS ")).map(|l| l[4..].to_string()).unwrap_or_default();
-            let want = m.baseline[i].replace('\n', "\\n");
-            Some((format!("expected {} actual {}", want, got), got != want))
+        "history-fresh-process" => {
+            let idx: Vec<usize> = case["indices"].as_array()?.iter().map(|v| v.as_u64().unwrap() as usize).collect();
+            let m = Hist::new(idx.len());
+            let obs = fresh_process(&idx);
+            let last = *idx.last()?;
+            let want = m.baseline[last].clone();
+            Some((format!("expected {} actual {:?}", want, obs.last()), obs.last() != Some(&want)))
+        }
+        "bfs-single-worker" => {
+            let depth = case["depth"].as_u64()? as usize;
+            let m = Hist::new(depth);
+            let checker = m.clone().checker().threads(1).spawn_bfs().join();
+            let found = checker.discovery("last operation answers as on a fresh history; inputs unchanged").is_some();
+            Some((format!("single-worker BFS to depth {}: discovery = {}", depth, found), found))
         }
         _ => None,
     }
